@@ -25,31 +25,33 @@ static void c03Body(Env& env, const std::string& stage, int n, const dom::Alphab
     c.count(empty ? "lang_empty" : "lang_nonempty");
     if (c.wantSample() && !empty && uselessPresent && A.rules.size() >= 3) c.sample(D->str(A));
     std::vector<std::string> feats; if (reach.size() == own.size() && reach != own) feats.push_back("reachable_count_equals_owner_count");
-    for (int ord = 0; ord < 2; ord++) {   // both construction histories: rules then finals ascending / finals first, everything descending
-    if (ord && A.rules.size() + A.finals.size() < 2) break;
-    ExplicitTreeAut a = dom::build(A, ord == 1);
+    ref::TA AH = ref::mapStatesF(A, [](size_t q) { return ((size_t)1 << 40) + (size_t)1000003 * q; });
+    for (int ord = 0; ord < 3; ord++) {   // construction histories: rules then finals ascending / finals first, everything descending / the same automaton on huge sparse state numbers (2^40 + 1000003q)
+    if (ord == 1 && A.rules.size() + A.finals.size() < 2) continue;
+    const ref::TA& X = ord == 2 ? AH : A; if (ord == 2) c.count("class_huge_sparse_state_numbers");
+    ExplicitTreeAut a = dom::build(X, ord == 1);
     try {
       // RemoveUnreachableStates
       { ExplicitTreeAut r = a.RemoveUnreachableStates(); ref::TA R = dom::readBack(r);
-        if (!ref::equalLang(A, R)) c.viol("RemoveUnreachableStates", "language_changed", feats, det(*D, A, "result: " + D->str(R)), w);
+        if (!ref::equalLang(X, R)) c.viol("RemoveUnreachableStates", "language_changed", feats, det(*D, X, "result: " + D->str(R)), w);
         auto rr = ref::reachableTopDown(R); bool bad = false; for (auto q : R.states()) if (!rr.count(q)) bad = true;
         std::unordered_set<size_t> used = r.GetUsedStates(); for (auto q : used) if (!rr.count(q)) bad = true;
-        if (bad) c.viol("RemoveUnreachableStates", "unreachable_state_left", feats, det(*D, A, "result: " + D->str(R)), w);
-        if (dom::readBack(a) != A) c.viol("RemoveUnreachableStates", "operand_changed", feats, det(*D, A, ""), w); }
+        if (bad) c.viol("RemoveUnreachableStates", "unreachable_state_left", feats, det(*D, X, "result: " + D->str(R)), w);
+        if (dom::readBack(a) != X) c.viol("RemoveUnreachableStates", "operand_changed", feats, det(*D, X, ""), w); }
       // with a translation map
       { AutBase::StateToStateMap m; ExplicitTreeAut r = a.RemoveUnreachableStates(&m); ref::TA R = dom::readBack(r);
-        if (!ref::equalLang(A, R)) c.viol("RemoveUnreachableStates(map)", "language_changed", feats, det(*D, A, "result: " + D->str(R)), w); }
+        if (!ref::equalLang(X, R)) c.viol("RemoveUnreachableStates(map)", "language_changed", feats, det(*D, X, "result: " + D->str(R)), w); }
       // RemoveUselessStates
       { ExplicitTreeAut u = a.RemoveUselessStates(); ref::TA R = dom::readBack(u);
-        if (!ref::equalLang(A, R)) c.viol("RemoveUselessStates", "language_changed", feats, det(*D, A, "result: " + D->str(R)), w);
+        if (!ref::equalLang(X, R)) c.viol("RemoveUselessStates", "language_changed", feats, det(*D, X, "result: " + D->str(R)), w);
         auto ru = ref::useful(R); bool bad = false; for (auto q : R.states()) if (!ru.count(q)) bad = true; for (auto& x : R.rules) if (!ref::usefulRule(x, ru)) bad = true;
         std::unordered_set<size_t> used = u.GetUsedStates(); for (auto q : used) if (!ru.count(q)) bad = true;
-        if (bad) c.viol("RemoveUselessStates", "useless_state_or_rule_left", feats, det(*D, A, "result: " + D->str(R)), w);
-        if (dom::readBack(a) != A) c.viol("RemoveUselessStates", "operand_changed", feats, det(*D, A, ""), w); }
+        if (bad) c.viol("RemoveUselessStates", "useless_state_or_rule_left", feats, det(*D, X, "result: " + D->str(R)), w);
+        if (dom::readBack(a) != X) c.viol("RemoveUselessStates", "operand_changed", feats, det(*D, X, ""), w); }
       // IsLangEmpty
-      { bool e = a.IsLangEmpty(); if (e != empty) c.viol("IsLangEmpty", e ? "says_empty_but_is_not" : "says_nonempty_but_is_empty", feats, det(*D, A, ""), w);
-        if (dom::readBack(a) != A) c.viol("IsLangEmpty", "operand_changed", feats, det(*D, A, ""), w); }
-    } catch (std::exception& e) { c.viol("trimming", "exception", feats, det(*D, A, e.what()), w); }
+      { bool e = a.IsLangEmpty(); if (e != empty) c.viol("IsLangEmpty", e ? "says_empty_but_is_not" : "says_nonempty_but_is_empty", feats, det(*D, X, ""), w);
+        if (dom::readBack(a) != X) c.viol("IsLangEmpty", "operand_changed", feats, det(*D, X, ""), w); }
+    } catch (std::exception& e) { c.viol("trimming", "exception", feats, det(*D, X, e.what()), w); }
     }
   });
 }
